@@ -3,6 +3,7 @@ import JetVerif.Model.Path
 import JetVerif.Model.Lex
 import Driver.Read
 import JetVerif.Model.Loaders
+import JetVerif.Model.SetM
 
 open JetVerif
 
@@ -91,7 +92,72 @@ def multiCmd (loaders queries : List Sexp) : Sexp :=
     | .list [.atom "open", .bytes p] => optBytes (m.open_ p)
     | _ => .atom "bad-op")
 
+def evSexp : SetM.Ev → Sexp
+  | .exists_ p => .list [.atom "E", .bytes p]
+  | .open_ p => .list [.atom "O", .bytes p]
+  | .get p => .list [.atom "G", .bytes p]
+  | .put p _ => .list [.atom "P", .bytes p]
+
+def bytesList (xs : List Sexp) : List (List UInt8) :=
+  xs.filterMap fun x => match x with | .bytes b => some b | _ => none
+
+def readContent : List Sexp → Option SetM.Content
+  | [.atom mark, .list refs, .list incs, .atom bad] =>
+    some { mark := mark.toNat?.getD 0, refs := bytesList refs, includes := bytesList incs, bad := bad == "true" }
+  | _ => none
+
+/-- `(setm dev (exts ...) op...)`: one observation per get/parse/exec op -/
+def setmCmd (dev : Bool) (exts : List (List UInt8)) (ops : List Sexp) : Sexp :=
+  let fuel := 64
+  let rec go (s : SetM.SetSt) (rets : Array Nat) (acc : Array Sexp) : List Sexp → Array Sexp
+    | [] => acc
+    | op :: rest =>
+      let s0 := { s with trace := [] }
+      let traceOf (s' : SetM.SetSt) : Sexp := .list (s'.trace.reverse.map evSexp)
+      let classOf (rets : Array Nat) (id : Nat) : Nat := (rets.toList.idxOf id)
+      match op with
+      | .list (.atom "file" :: .bytes p :: .atom "ok" :: cnt) =>
+        match readContent cnt with
+        | some c => go { s with files := (p, .ok c) :: s.files.filter (fun e => e.1 != p) } rets acc rest
+        | none => go s rets (acc.push (.atom "bad-op")) rest
+      | .list [.atom "file", .bytes p, .atom "openfails"] =>
+        go { s with files := (p, .openFails) :: s.files.filter (fun e => e.1 != p) } rets acc rest
+      | .list [.atom "file", .bytes p, .atom "readfails"] =>
+        go { s with files := (p, .readFails) :: s.files.filter (fun e => e.1 != p) } rets acc rest
+      | .list [.atom "delfile", .bytes p] =>
+        go { s with files := s.files.filter (fun e => e.1 != p) } rets acc rest
+      | .list [.atom "get", .bytes n] =>
+        match SetM.getTemplateOp fuel s0 n with
+        | (.ok id, s') =>
+          let rets' := rets.push id
+          go s' rets' (acc.push (.list [.atom "ok", Sexp.ofNat (classOf rets' id), traceOf s'])) rest
+        | (.err, s') => go s' rets (acc.push (.list [.atom "err", traceOf s'])) rest
+        | (.fuel, s') => go s' rets (acc.push (.list [.atom "unsupported", .atom "fuel"])) rest
+      | .list (.atom "parse" :: .bytes n :: cnt) =>
+        match readContent cnt with
+        | none => go s rets (acc.push (.atom "bad-op")) rest
+        | some c =>
+          match SetM.parseOp fuel s0 n c with
+          | (.ok id, s') =>
+            let rets' := rets.push id
+            go s' rets' (acc.push (.list [.atom "ok", Sexp.ofNat (classOf rets' id), traceOf s'])) rest
+          | (.err, s') => go s' rets (acc.push (.list [.atom "err", traceOf s'])) rest
+          | (.fuel, s') => go s' rets (acc.push (.list [.atom "unsupported", .atom "fuel"])) rest
+      | .list [.atom "exec", .atom k] =>
+        match rets[k.toNat?.getD 0]? with
+        | none => go s rets (acc.push (.atom "no-such-template")) rest
+        | some id =>
+          match SetM.render fuel s0 id with
+          | ((okk, marks), s') =>
+            go s' rets (acc.push (.list [.atom (if okk then "ok" else "err"), .list (marks.map Sexp.ofNat), traceOf s'])) rest
+      | _ => go s rets (acc.push (.atom "bad-op")) rest
+  let res := go { dev := dev, exts := exts } #[] #[] ops
+  if res.any (fun x => match x with | .list (.atom "unsupported" :: _) => true | _ => false) then
+    .list [.atom "unsupported", .atom "fuel"]
+  else .list res.toList
+
 def dispatch : Sexp → Sexp
+  | .list (.atom "setm" :: .atom dev :: .list (.atom "exts" :: exts) :: ops) => setmCmd (dev == "true") (bytesList exts) ops
   | .list (.atom "inmem" :: ops) => inmemCmd ops
   | .list [.atom "multi", .list loaders, .list queries] => multiCmd loaders queries
   | .list [.atom "exec", store, entry, exts, esc, globals, vars, data, fuel] =>
